@@ -33,6 +33,28 @@ def simulate(module, cfg, *, num, depth, seed, timeout=600):
     return behs
 
 
+def par(ck, tasks, jobs=5):
+    """Independent TLC runs concurrently.  tasks: callables taking a private Check; their legs, counts, violations and
+    sensitivity results are merged into `ck` in task order; a Machinery failure of any task propagates."""
+    from concurrent.futures import ThreadPoolExecutor
+
+    from mbt.framework import Check
+    subs = [Check(ck.pid, ck.tier, ck.seed) for _ in tasks]
+    for sub in subs:
+        sub.findings = ck.findings
+    with ThreadPoolExecutor(max_workers=jobs) as ex:
+        futs = [ex.submit(t, sub) for t, sub in zip(tasks, subs)]
+        vals = [f.result() for f in futs]
+    for sub in subs:
+        ck.legs += sub.legs
+        ck.states += sub.states
+        ck.transitions += sub.transitions
+        ck.violations += sub.violations
+        ck.known_hits += sub.known_hits
+        ck.sensitivity.update(sub.sensitivity)
+    return vals
+
+
 # ===============================================================================================================
 # C13
 
@@ -99,33 +121,52 @@ def rc_l3_sig(t, v):
             'class': rc_classify(prev['ev'], cmp_)}
 
 
-def rc_replay_items(ck, thorough):
-    """behaviours of RefCount!SeqSpec: shortest paths to the trap goals + random simulation to depth 40"""
-    items = []
+def rc_tlc_phase(ck, thorough):
+    """all TLC work of C13, run concurrently: L1, sensitivity, and the histories for the replay leg (probes: shortest
+    counterexamples of the AS-FOUND design, one per flag; traps: shortest paths to the reachability goals; simulate)"""
+    W = 6
+    tasks = [
+        lambda c: c.l1('RefCount/safety', 'RefCount', rc_cfg(7 if thorough else 5, RC_SAFETY), may_skip=RC_SKIP),
+        lambda c: c.l1('RefCount/safety, two containers', 'RefCount',
+                       rc_cfg(5 if thorough else 4, RC_SAFETY, conts=('c', 'd'), blocks=('m',), kids=()),
+                       may_skip=RC_SKIP + ('RebuildInheriting',), workers=W),
+        lambda c: c.l1('RefCount/liveness', 'RefCount',
+                       rc_cfg(6 if thorough else 5, [], RC_LIVE, spec='FairSpec', selfstore=False), coverage=False,
+                       timeout=2400, workers=W),
+        # the as-found design must violate the property in the model
+        lambda c: c.sensitive('child proxy rebuilt while inheriting owns no reference and never gives back the transit '
+                              'one (D15)', 'RefCount', rc_cfg(5, ['Count'], inherit=False), 'invariant', 'Count', workers=W),
+        lambda c: c.sensitive('D15: the hosted object is never destroyed (liveness)', 'RefCount',
+                              rc_cfg(4, [], ['AllGone'], spec='FairSpec', inherit=False, selfstore=False), 'temporal',
+                              workers=W),
+        lambda c: c.sensitive('proxies still referenced at process exit are never released (D15b)', 'RefCount',
+                              rc_cfg(5, ['Count'], exitrel=False), 'invariant', 'Count', workers=W),
+    ]
+    n_fixed = len(tasks)
+    probes = (('InheritOwnsRef', {'inherit': False}), ('ExitReleases', {'exitrel': False}))
+    for flag, kw in probes:
+        tasks.append(lambda c, flag=flag, kw=kw: c.sensitive(
+            f'{flag}=FALSE violates Count (history for the replay leg)', 'RefCount',
+            rc_cfg(8, ['Count'], spec='SeqSpec', view=False, **kw), 'invariant', 'Count', workers=W))
     for trap, procs, kids in RC_TRAPS:
-        tr = ck.trap(trap, 'RefCount', rc_cfg(10, [trap], spec='SeqSpec', procs=procs, kids=kids, view=False), timeout=600)
-        items.append({'kind': 'replay', 'src': trap, 'beh': _beh(tr)})
-    n = 240 if thorough else 40
-    behs = simulate('RefCount', rc_cfg(18, ['Count'], spec='SeqSpec', kids=('k1', 'k2'), view=False),
-                    num=n, depth=40, seed=ck.seed * 7919 + 11)
-    for b in behs:
-        items.append({'kind': 'replay', 'src': 'simulate', 'beh': [[a, s] for a, s in b]})
-    rnd = random.Random(ck.seed * 1000003 + 131)
-    for k, it in enumerate(items):
-        it['id'] = k
-        it['variant'] = {'container': {'c': rnd.choice(['dict', 'list'])}, 'exit': rnd.choice(['hold', 'hold', 'drop'])}
-    return items
-
-
-def rc_probe_items(ck):
-    """counterexamples of the AS-FOUND design (each flag FALSE) as replayable histories: if the real server follows
-    one of them into its bad state, the defect is present in the code"""
+        tasks.append(lambda c, trap=trap, procs=procs, kids=kids: c.trap(
+            trap, 'RefCount', rc_cfg(10, [trap], spec='SeqSpec', procs=procs, kids=kids, view=False), timeout=600, workers=W))
+    tasks.append(lambda c: simulate('RefCount', rc_cfg(18, ['Count'], spec='SeqSpec', kids=('k1', 'k2'), view=False),
+                                    num=240 if thorough else 64, depth=40, seed=ck.seed * 7919 + 11))
+    vals = par(ck, tasks)
     items = []
-    for flag, kw in (('InheritOwnsRef', {'inherit': False}), ('ExitReleases', {'exitrel': False})):
-        res = ck.sensitive(f'{flag}=FALSE violates Count (history for the replay leg)', 'RefCount',
-                           rc_cfg(8, ['Count'], spec='SeqSpec', view=False, **kw), 'invariant', 'Count')
+    for (flag, kw), res in zip(probes, vals[n_fixed:]):
         items.append({'kind': 'replay', 'probe': flag, 'id': 'probe-' + flag, 'beh': _beh(res.violation['trace']),
                       'variant': {'container': {'c': 'dict'}, 'exit': 'hold'}})
+    n_probe = len(items)
+    for (trap, procs, kids), tr in zip(RC_TRAPS, vals[n_fixed + len(probes):]):
+        items.append({'kind': 'replay', 'src': trap, 'beh': _beh(tr)})
+    for b in vals[-1]:
+        items.append({'kind': 'replay', 'src': 'simulate', 'beh': [[a, st] for a, st in b]})
+    rnd = random.Random(ck.seed * 1000003 + 131)
+    for k, it in enumerate(items[n_probe:]):
+        it['id'] = k
+        it['variant'] = {'container': {'c': rnd.choice(['dict', 'list'])}, 'exit': rnd.choice(['hold', 'hold', 'drop'])}
     return items
 
 
@@ -166,22 +207,9 @@ def c13(ck, replay=None):
     if replay is not None:
         return rc_rerun(ck, replay)
     thorough = ck.tier == 'thorough'
-    # ---- L1
-    ck.l1('RefCount/safety', 'RefCount', rc_cfg(7 if thorough else 5, RC_SAFETY), may_skip=RC_SKIP)
-    ck.l1('RefCount/safety, two containers', 'RefCount',
-          rc_cfg(5 if thorough else 4, RC_SAFETY, conts=('c', 'd'), blocks=('m',), kids=()), may_skip=RC_SKIP + ('RebuildInheriting',))
-    ck.l1('RefCount/liveness', 'RefCount',
-          rc_cfg(6 if thorough else 5, [], RC_LIVE, spec='FairSpec', selfstore=False), coverage=False, timeout=2400)
-    # ---- the as-found design must violate the property in the model
-    ck.sensitive('child proxy rebuilt while inheriting owns no reference and never gives back the transit one (D15)',
-                 'RefCount', rc_cfg(5, ['Count'], inherit=False), 'invariant', 'Count')
-    ck.sensitive('D15: the hosted object is never destroyed (liveness)', 'RefCount',
-                 rc_cfg(4, [], ['AllGone'], spec='FairSpec', inherit=False, selfstore=False), 'temporal')
-    ck.sensitive('proxies still referenced at process exit are never released (D15b)', 'RefCount',
-                 rc_cfg(5, ['Count'], exitrel=False), 'invariant', 'Count')
-    # ---- spec -> code
-    items = rc_probe_items(ck) + rc_replay_items(ck, thorough)
-    out = ck.run_binder('refcount', items, timeout=1500, extra={'detsched': False})
+    # ---- L1, sensitivity, histories (TLC) ; then spec -> code
+    items = rc_tlc_phase(ck, thorough)
+    out = ck.run_binder('refcount', items, timeout=900, extra={'detsched': False})
     nsteps = rc_report(ck, out)
     ck.evaluations += nsteps
     ck.legs.append({'leg': 'L2', 'name': 'TLC histories (traps + simulate, SeqSpec) executed on a real ServerProcess',
@@ -190,9 +218,9 @@ def c13(ck, replay=None):
         ck.sample({'kind': 'replayed_history', 'src': it['src'], 'actions': [s['act'] for a, s in it['beh'][1:30]]})
     # ---- code -> spec
     rnd = random.Random(ck.seed * 1000003 + 137)
-    scs = RB.gen_scenarios(rnd, 240 if thorough else 32, 60 if thorough else 30)
+    scs = RB.gen_scenarios(rnd, 240 if thorough else 48, 60 if thorough else 30)
     ritems = [{'kind': 'random', 'id': k, 'sc': sc, 'seed': rnd.randrange(1 << 30)} for k, sc in enumerate(scs)]
-    out = ck.run_binder('refcount', ritems, timeout=1500, extra={'detsched': False})
+    out = ck.run_binder('refcount', ritems, timeout=900, extra={'detsched': False})
     rc_report(ck, out)
     traces = [{'id': r['id'], 'p': RB.header(r['sc']), 'ev': r['ev'], 'sc': r['sc'], 'seed': r['seed']}
               for r in out.get('results', []) if r['status'] == 'ok']
@@ -308,36 +336,45 @@ def c14(ck, replay=None):
     if replay is not None:
         return pc_rerun(ck, replay)
     thorough = ck.tier == 'thorough'
-    # ---- L1: the object model (by groups of objects; the objects do not interact except L/K/C)
-    ck.l1('ProxyCall/list + custom class + managed child', 'ProxyCall',
-          pc_cfg(('L', 'K', 'C'), callers=('t1', 'ch', 'sv') if thorough else ('t1', 'sv'), maxlen=2),
-          may_skip=pc_skip('LKC'), coverage=not thorough)
-    if thorough:
-        ck.l1('ProxyCall/list alone, longer', 'ProxyCall', pc_cfg(('L',), vals=(0, 1, 2, 3, 5), maxlen=4, callers=('t1',)),
-              may_skip=pc_skip('L'))
-    ck.l1('ProxyCall/dict', 'ProxyCall', pc_cfg(('D',), vals=(0, 1, 4), nkeys=3, maxlen=3), may_skip=pc_skip('D'))
-    ck.l1('ProxyCall/namespace + value', 'ProxyCall', pc_cfg(('N', 'V'), vals=(0, 3, 4, 5)), may_skip=pc_skip('NV'))
-    # ---- the as-found design must violate "proxy call = direct call" in the model
-    ck.sensitive('generated __imul__ overwrites the in-place one: `proxy *= k` yields a detached copy (MGR18)', 'ProxyCall',
-                 pc_cfg(('L',), imul=False), 'action_property', 'SameAsDirect')
-    ck.sensitive('NamespaceProxy with a generated __getattribute__ method: unbounded recursion (MGR17)', 'ProxyCall',
-                 pc_cfg(('N',), ns=False), 'action_property', 'SameAsDirect')
-    ck.sensitive('in-server proxy call that raises: RemoteException wrapper is raised -> TypeError (MGR19)', 'ProxyCall',
-                 pc_cfg(('L',), isr=False), 'action_property', 'SameAsDirect')
-    # ---- spec -> code: TLC histories replayed on a real ServerProcess
+    # ---- L1: the object model (by groups of objects; the objects do not interact except L/K/C); the as-found design must
+    # violate "proxy call = direct call" in the model; random behaviours for the replay leg - all TLC runs concurrently
+    W = 6
     rnd = random.Random(ck.seed * 1000003 + 151)
-    items = []
-    plan = [(PC_ALL, 60 if thorough else 14, 14), (('L', 'K', 'C'), 40 if thorough else 8, 14),
-            (('D',), 30 if thorough else 6, 12), (('N', 'V', 'C'), 30 if thorough else 6, 10)]
+    plan = [(PC_ALL, 200 if thorough else 20, 14), (('L', 'K', 'C'), 150 if thorough else 12, 14),
+            (('D',), 100 if thorough else 8, 12), (('N', 'V', 'C'), 100 if thorough else 8, 10)]
+    tasks = [
+        lambda c: c.l1('ProxyCall/list + custom class + managed child', 'ProxyCall',
+                       pc_cfg(('L', 'K', 'C'), callers=('t1', 'ch', 'sv') if thorough else ('t1', 'sv'), maxlen=2),
+                       may_skip=pc_skip('LKC'), coverage=not thorough),
+        lambda c: c.l1('ProxyCall/dict', 'ProxyCall', pc_cfg(('D',), vals=(0, 1, 4), nkeys=3, maxlen=3),
+                       may_skip=pc_skip('D'), workers=W),
+        lambda c: c.l1('ProxyCall/namespace + value', 'ProxyCall', pc_cfg(('N', 'V'), vals=(0, 3, 4, 5)),
+                       may_skip=pc_skip('NV'), workers=W),
+        lambda c: c.sensitive('generated __imul__ overwrites the in-place one: `proxy *= k` yields a detached copy (MGR18)',
+                              'ProxyCall', pc_cfg(('L',), imul=False), 'action_property', 'SameAsDirect', workers=W),
+        lambda c: c.sensitive('NamespaceProxy with a generated __getattribute__ method: unbounded recursion (MGR17)',
+                              'ProxyCall', pc_cfg(('N',), ns=False), 'action_property', 'SameAsDirect', workers=W),
+        lambda c: c.sensitive('in-server proxy call that raises: RemoteException wrapper is raised -> TypeError (MGR19)',
+                              'ProxyCall', pc_cfg(('L',), isr=False), 'action_property', 'SameAsDirect', workers=W),
+    ]
+    if thorough:
+        tasks.append(lambda c: c.l1('ProxyCall/list alone, longer', 'ProxyCall',
+                                    pc_cfg(('L',), vals=(0, 1, 2, 3, 5), maxlen=4, callers=('t1',)), may_skip=pc_skip('L'),
+                                    workers=W))
+        tasks.append(lambda c: c.l1('ProxyCall/list + custom class + managed child, length 3', 'ProxyCall',
+                                    pc_cfg(('L', 'K', 'C'), callers=('t1', 'sv'), maxlen=3), may_skip=pc_skip('LKC'),
+                                    coverage=False, timeout=2400))
+    n_fixed = len(tasks)
     for k, (active, num, depth) in enumerate(plan):
-        behs = simulate('ProxyCall', pc_cfg(active, vals=range(6), nkeys=3, maxlen=4, maxn=6, callers=PB.ALL_CALLERS,
-                                            view=False, properties=()),
-                        num=num, depth=depth, seed=ck.seed * 7919 + 17 + k)
+        tasks.append(lambda c, k=k, active=active, num=num, depth=depth: simulate(
+            'ProxyCall', pc_cfg(active, vals=range(6), nkeys=3, maxlen=4, maxn=6, callers=PB.ALL_CALLERS, view=False,
+                                properties=()), num=num, depth=depth, seed=ck.seed * 7919 + 17 + k))
+    vals = par(ck, tasks)
+    # ---- spec -> code: TLC histories replayed on a real ServerProcess
+    items = []
+    for (active, num, depth), behs in zip(plan, vals[n_fixed:]):
         items += pc_items_from(behs, 'simulate:' + ''.join(active), rnd, len(items))
-    # the shortest history to each as-found deviation (counterexamples of the sensitivity runs) is replayed too
-    for name, leg in list(ck.sensitivity.items()):
-        pass
-    out = ck.run_binder('proxycall', items, timeout=1500, extra={'detsched': False})
+    out = ck.run_binder('proxycall', items, timeout=900, extra={'detsched': False})
     nsteps = pc_report(ck, out, 'L2')
     ck.evaluations += nsteps
     ops = sorted({(a['o'], a['op'], a['r']['k'] == 'err') for it in items for a in it['acts']})
@@ -346,9 +383,9 @@ def c14(ck, replay=None):
     ck.sample({'kind': 'replayed_history', 'acts': [[a['c'], a['o'], a['op'], a['a'], a['b'], a['s'], a['r']['k'],
                                                      a['r']['e']] for a in items[0]['acts']]})
     # ---- code -> spec: concurrent callers, TLC searches a linearization
-    scs = PB.gen_scenarios(rnd, 200 if thorough else 40, 12 if thorough else 10)
+    scs = PB.gen_scenarios(rnd, 800 if thorough else 64, 14 if thorough else 12)
     citems = [{'kind': 'concurrent', 'id': k, 'sc': sc, 'seed': rnd.randrange(1 << 30)} for k, sc in enumerate(scs)]
-    out = ck.run_binder('proxycall', citems, timeout=1500, extra={'detsched': False})
+    out = ck.run_binder('proxycall', citems, timeout=900, extra={'detsched': False})
     pc_report(ck, out, 'L3')
     traces = [{'id': r['id'], 'p': {'seqs': r['seqs'], 'final': r['final']}, 'ev': r['ev'], 'sc': r['sc'],
                'seed': r['seed'], 'classes': r.get('classes')}
